@@ -6,7 +6,7 @@
 //! bound.  Oracle: E-TASK deadlock detection (no task woken, not all finished) or a step horizon
 //! = the session does not terminate; otherwise both sides must return Ok.
 use std::collections::BTreeMap;
-use std::time::Duration;
+use std::time::{Duration, Instant};
 
 use explorer::task::End;
 use explorer::{dfs, json, Chooser, DfsCfg, Report};
@@ -67,7 +67,7 @@ pub fn run(mut rep: Report) -> i32 {
         "grid capacity {{0,1,2,4,8}} x operations only A holds 0..={max_n} x operations only B holds 0..={max_n} x 1-2 authors; all scheduler and select! start-branch choices with <= {max_dev} deviations; non-trivial = grid point where both sides have something to send"
     );
     let part = format!("bounded transport grid, deviations<={max_dev}");
-    let wall = Duration::from_secs(if thorough { 540 } else { 35 });
+    let wall = Instant::now() + Duration::from_secs(if thorough { 560 } else { 40 });
     let mut acc = par_for(&grid, rep.args.threads, wall, |idx, g, acc: &mut Acc| {
         let mut dead = 0u64;
         let st = dfs(
@@ -78,7 +78,7 @@ pub fn run(mut rep: Report) -> i32 {
             },
             |ch, run| {
                 acc.steps += run.steps;
-                let rank = (g.c as u64, ((g.na + g.nb) * 4 + g.authors) as u64, ch.deviations() as u64 * 1000 + ch.vector().len() as u64);
+                let rank = (g.c as u64, (((g.na + g.nb) * 4 + g.authors) * 100_000 + idx) as u64, ch.deviations() as u64 * 1000 + ch.vector().len() as u64);
                 let ctx = || {
                     format!(
                         "capacity {}, A holds {} operation(s) B lacks, B holds {} A lacks, {} author(s); A wrote {:?}, B wrote {:?}; schedule [{}]",
@@ -120,7 +120,13 @@ pub fn run(mut rep: Report) -> i32 {
                         };
                         let (sa, sb) = (state(0), state(1));
                         let shape = if sa == "sending" && sb == "sending" { "both-blocked-sending".to_string() } else { format!("A-{sa}-B-{sb}") };
-                        let class = if g.c == 0 { "capacity-0" } else { "volume-exceeds-capacity" };
+                        let class = if g.c == 0 {
+                            "capacity-0"
+                        } else if shape == "both-blocked-sending" {
+                            "volume-exceeds-capacity"
+                        } else {
+                            "buffered"
+                        };
                         acc.violation(
                             &format!("deadlock/{shape}/{class}"),
                             rank,
